@@ -179,6 +179,36 @@ def gen_exit_census(L, ch, cm, mon, b, em):
     L.append('  ' + em.e(parse_expr(m.group(1).replace('htlc.forward_info.outgoing_cltv_value', 'outgoing_cltv_value'))))
     if not re.search(r'let htlc_timed_out = htlc\.mpp_part\.check_onchain_timeout\(height\);', d):
         raise TranslateError("claimable-HTLC timeout of do_chain_event no longer uses check_onchain_timeout(height)")
+    # --- (round 5b) the awaiting_trampoline_forwards arm: quantifier over the parts, what is failed, reason, what is retained
+    mt = re.search(r'self\.awaiting_trampoline_forwards\.lock\(\)\.unwrap\(\)\.retain\(\|payment_hash, payment\| \{\s*'
+                   r'if payment\.htlcs\.is_empty\(\) \{\s*debug_assert!\(false\);\s*return false;\s*\}\s*'
+                   r'let htlc_timed_out =\s*payment\.htlcs\.iter\(\)\.(any|all)\(\|htlc\| htlc\.check_onchain_timeout\(height\)\);\s*'
+                   r'if htlc_timed_out \{\s*let previous_hop_data =\s*payment\.htlcs\.drain\(\.\.\)\.map\(\|claimable\| claimable\.prev_hop\)\.collect\(\);\s*'
+                   r'let failure_reason = LocalHTLCFailureReason::(\w+);\s*'
+                   r'timed_out_htlcs\.push\(\(\s*HTLCSource::TrampolineForward \{ previous_hop_data, outbound_payment: None \},.*?\)\);\s*\}\s*'
+                   r'(!?)htlc_timed_out\s*\}\);', d, re.S)
+    if not mt: raise TranslateError("awaiting_trampoline_forwards timeout arm of do_chain_event changed shape (quantifier over parts / drain(..) of every prev hop / reason / retain result)")
+    if mt.group(3) != '!': raise TranslateError("awaiting_trampoline_forwards: a timed-out payment is no longer dropped from the map")
+    L.append('/-- mirrors do_chain_event, awaiting_trampoline_forwards.retain: a trampoline forward waiting for its parts is given up iff')
+    L.append('    `payment.htlcs.iter().%s(|htlc| htlc.check_onchain_timeout(height))`; pinned: then EVERY part\'s prev hop is drained into ONE' % mt.group(1))
+    L.append('    HTLCSource::TrampolineForward failure, the entry is dropped (`!htlc_timed_out`), an empty entry is dropped -/')
+    L.append('def trampolineTimedOut (height : Nat) (cltvs : List Nat) : Bool :=')
+    L.append('  cltvs.%s (fun cltv_expiry => mppOnchainTimeout height cltv_expiry)' % mt.group(1))
+    L.append('def trampolineTimeoutReason : FailReason := .%s' % lc(mt.group(2)))
+    L.append('')
+    arms = [('holdingCell', r'timed_out_pending_htlcs\.drain\(\.\.\)'), ('claimable', r'claimable_payments\.retain\('),
+            ('trampolineAwaiting', r'awaiting_trampoline_forwards\.lock\(\)\.unwrap\(\)\.retain\('), ('intercepted', r'intercepted_htlcs\.retain\(')]
+    pos = []
+    for n, pat in arms:
+        ma = re.search(pat, d)
+        if not ma: raise TranslateError("do_chain_event: timeout sweep `%s` not found" % n)
+        pos.append((ma.start(), n))
+    L.append('/-- TRANSLATED: the timeout sweeps of do_chain_event that feed `timed_out_htlcs`, in source order -/')
+    L.append('inductive MgrSweep where')
+    L.append('  | ' + ' | '.join(n for n, _ in arms))
+    L.append('  deriving DecidableEq, Repr, Inhabited')
+    L.append('def chainEventSweeps : List MgrSweep := [%s]' % ', '.join('.' + n for _, n in sorted(pos)))
+    L.append('')
     L.append('')
     # --- ChannelMonitorImpl::best_block_updated: which announced heights are processed at all ---------------------------
     _, _, mb = find_fn(mon, 'best_block_updated', after='fn block_connected<B: BroadcasterInterface, F: FeeEstimator, L: Logger>(\n\t\t&mut self, header: &Header, txdata')
@@ -380,6 +410,42 @@ def main(out_path):
     L.append('def earlyFailBack (height inbound_htlc_expiry : Nat) : Bool :=')
     L.append('  let max_expiry_height := ' + Emitter(narrow=lambda t: True).e(parse_expr(m1.group(1))))
     L.append('  !' + em.e(parse_expr('inbound_htlc_expiry %s max_expiry_height' % m2.group(1))))
+    L.append('')
+    # (round 5b) MEMBERSHIP of that loop: which HTLC sets it chains, and which entries it skips, in source order
+    bb = strip_comments(body)
+    mg = re.search(r'if self\.no_further_updates_allowed\(\) \{\s*let current_counterparty_htlcs = if let Some\(txid\) = self\.funding\.(\w+) \{.*?'
+                   r'let prev_counterparty_htlcs = if let Some\(txid\) = self\.funding\.(\w+) \{.*?'
+                   r'let htlcs = holder_commitment_htlcs!\(self, (\w+)\)((?:\s*\.chain\(\w+\))*);\s*'
+                   r'let height = self\.best_block\.height;\s*for \(htlc, source_opt\) in htlcs \{(.*?)self\.pending_monitor_events\.push\(MonitorEvent::HTLCEvent', bb, re.S)
+    if not mg: raise TranslateError("block_confirmed: shape of the pre-emptive fail-back loop (gate no_further_updates_allowed, chained HTLC sets) changed")
+    keyed = {'current_counterparty_htlcs': mg.group(1), 'prev_counterparty_htlcs': mg.group(2)}
+    known = {'current_counterparty_commitment_txid': 'counterpartyCurrent', 'prev_counterparty_commitment_txid': 'counterpartyPrev'}
+    if mg.group(3) != 'CURRENT_WITH_SOURCES': raise TranslateError("pre-emptive fail-back loop no longer starts from the holder commitment's HTLCs WITH SOURCES: %s" % mg.group(3))
+    sweep = ['holderCurrent']
+    for c in re.findall(r'\.chain\((\w+)\)', mg.group(4)):
+        if c not in keyed or keyed[c] not in known: raise TranslateError("pre-emptive fail-back loop chains an unknown HTLC set: %s" % c)
+        sweep.append(known[keyed[c]])
+    loop = mg.group(5)
+    skips = []
+    for pat, name in [(r'let source = match source_opt \{\s*Some\(source\) => source,\s*None => continue,\s*\};', 'noSource'),
+                      (r'let inbound_htlc_expiry = match source\.inbound_htlc_expiry\(\) \{\s*Some\(cltv_expiry\) => cltv_expiry,\s*None => continue,\s*\};', 'noInboundExpiry'),
+                      (r'if inbound_htlc_expiry > max_expiry_height \{\s*continue;\s*\}', 'notYetDue'),
+                      (r'if duplicate_event \{\s*continue;\s*\}', 'eventAlreadyPending'),
+                      (r'if !self\.failed_back_htlc_ids\.insert\(SentHTLCId::from_source\(source\)\) \{\s*continue;\s*\}', 'alreadyFailedBack')]:
+        mm = re.search(pat, loop)
+        if not mm: raise TranslateError("pre-emptive fail-back loop: skip rule `%s` not found" % name)
+        skips.append((mm.start(), name))
+    if len(re.findall(r'\bcontinue\b', loop)) != len(skips) or re.search(r'\b(break|return)\b', loop):
+        raise TranslateError("pre-emptive fail-back loop has a new skip / break / return")
+    if [n for _, n in sorted(skips)] != [n for _, n in skips]: raise TranslateError("pre-emptive fail-back loop: order of the skip rules changed")
+    L.append('/-- TRANSLATED: the HTLC sets the pre-emptive upstream fail-back loop of block_confirmed visits (gate: no_further_updates_allowed()),')
+    L.append('    `holder_commitment_htlcs!(self, CURRENT_WITH_SOURCES)%s` -/' % ''.join(mg.group(4).split()))
+    L.append('def preemptiveSweepList : List ScanSet := [%s]' % ', '.join('.' + x for x in sweep))
+    L.append('/-- TRANSLATED: the only `continue`s of that loop, in source order (no break / return) -/')
+    L.append('inductive PreemptSkip where')
+    L.append('  | ' + ' | '.join(n for _, n in skips))
+    L.append('  deriving DecidableEq, Repr, Inhabited')
+    L.append('def preemptiveSkips : List PreemptSkip := [%s]' % ', '.join('.' + n for _, n in skips))
     L.append('')
 
     # --- FundedChannel::internal_htlc_satisfies_config (channel.rs) ------------------------------
